@@ -208,6 +208,23 @@ func (e *engine) runC12() {
 		e.rep.Compare(fmt.Sprintf("wrapper %d", i), "x", "x", "wrapper", "encrypt.enc:wrapper", mon)
 		e.decCase(k.priv, ctx, ct, "round-trip", wantMsg(msg), nil, nil)
 		e.decCase(k.priv, ctx, ct, "round-trip-privkey", wantMsg(msg), nil, k)
+		// the caller keeps ONE ciphertext buffer: a rejected attempt (wrong key) and an earlier
+		// successful decryption must not spoil a later decryption of that same ciphertext
+		{
+			buf := clone(ct)
+			steps := ""
+			mon := ""
+			if _, err := peer.DecryptWithEd25519(ed25519.PrivateKey(keys[(i+1)%3].priv), ctx, buf); err == nil {
+				steps += "wrong-key:ok "
+			}
+			for a := 1; a <= 2 && mon == ""; a++ {
+				out, err := peer.DecryptWithEd25519(ed25519.PrivateKey(k.priv), ctx, buf)
+				if err != nil || lib.Hex(out) != lib.Hex(msg) {
+					mon = fmt.Sprintf("decryption #%d of the same ciphertext buffer (after a rejected wrong-key attempt) with the matching key and context does not return the original message (%d-byte message): %v", a, len(msg), err)
+				}
+			}
+			e.rep.Compare(fmt.Sprintf("same-buffer %d len=%d %s", i, len(msg), steps), "x", "x", "wrapper", "encrypt.dec:same-buffer", mon)
+		}
 		if big {
 			e.decCase(keys[(i+1)%3].priv, ctx, ct, "wrong-key", mustErr, msg, nil)
 			continue
